@@ -75,7 +75,7 @@ Definition lzma1_new_mem_limit (input : list Z) (mem_limit_kb : Z) (preset : opt
 
 (* the while loop of read_decode; [len] bytes still wanted, [acc] = bytes produced, newest first *)
 Fixpoint lzma1_read_loop (fuel : nat) (s : lzma1) (len : Z) (acc : list Z) : outcome (list Z * lzma1) :=
-  if len <=? 0 then Ok (rev acc, s) else
+  if len <=? 0 then Ok (frev acc, s) else
   match fuel with
   | O => Fuel
   | S f =>
@@ -103,7 +103,7 @@ Fixpoint lzma1_read_loop (fuel : nat) (s : lzma1) (len : Z) (acc : list Z) : out
       let s1 := mkLzma1 c1 w2 d2 t1 end2 remaining in
       let acc1 := rev_append out acc in
       if end2 then
-        if lzwin_has_pending w2 then Err E_INVALID_DATA else Ok (rev acc1, s1)
+        if lzwin_has_pending w2 then Err E_INVALID_DATA else Ok (frev acc1, s1)
       else lzma1_read_loop f s1 (len - copied) acc1
   end.
 
@@ -124,7 +124,7 @@ Fixpoint lzma1_read_all (fuel : nat) (s : lzma1) (sizes : list Z) (all : list Z)
       let '(sz, rest) := match sizes with [] => (4096, all) | x :: r => (x, r) end in
       do r <- lzma1_read s sz;
       let '(out, s1) := r in
-      if (0 <? sz) && (zlen out =? 0) then Ok (rev acc, s1)
+      if (0 <? sz) && (zlen out =? 0) then Ok (frev acc, s1)
       else lzma1_read_all f s1 (match rest with [] => all | _ => rest end) all (rev_append out acc)
   end.
 
